@@ -293,3 +293,34 @@ CHECKS["C16"] = {
     "explanation": "symbolic interval coordinates (nested, abutting, chained, duplicated intervals all inside the range), locations and insertion order case-split; specification = transitive closure of 'same location and overlapping or abutting' computed on symbolic booleans",
     "outside": "more than 3 pairs, coordinates beyond the stated range, overlap slack other than 0, more than 2 locations; map iteration order is insertion order in the engine (the checked facts are order-insensitive)",
 }
+
+
+def c19_jobs(tier):
+    jobs = []
+    P = "concurrent"
+    for ops in ([2, 3] if tier == "quick" else [2, 3, 4]):
+        jobs.append({"pkgdir": P, "func": "VerifC19_PromiseSeq", "params": {"ops": ops}, "sched": "det"})
+    for (g, mode, pre) in ([(2, 0, 2), (3, 0, 1), (2, 1, 2), (3, 1, 1), (2, 2, 2), (3, 2, 1)] if tier == "quick" else
+                           [(2, 0, 3), (3, 0, 2), (4, 0, 1), (2, 1, 3), (3, 1, 2), (4, 1, 1), (2, 2, 3), (3, 2, 2)]):
+        jobs.append({"pkgdir": P, "func": "VerifC19_PromiseConc", "params": {"goroutines": g, "mode": mode}, "sched": "sym", "preempt": pre})
+    procs = [(1, 0, 0, 0, 1), (1, 0, 2, 0, 2), (2, 0, 1, 0, 2), (2, 1, 2, 0, 1), (2, 0, 3, 1, 1)] if tier == "quick" else \
+            [(1, 0, 0, 0, 2), (1, 0, 2, 0, 3), (1, 1, 3, 1, 2), (2, 0, 1, 0, 3), (2, 1, 2, 0, 3), (2, 0, 3, 1, 2), (3, 0, 2, 0, 2), (2, 2, 4, 0, 1)]
+    for (t, b, n, qb, pre) in procs:
+        jobs.append({"pkgdir": P, "func": "VerifC19_Processor", "params": {"threads": t, "buffer": b, "nops": n, "qbuf": qb},
+                     "sched": "sym", "preempt": pre, "timeout_s": 600 if tier == "quick" else 3000})
+    for (n, t, c, pre) in ([(0, 1, 1, 1), (3, 2, 1, 1), (4, 2, 3, 1)] if tier == "quick" else [(0, 1, 1, 2), (3, 2, 1, 2), (4, 2, 3, 2), (4, 1, 2, 2), (2, 2, 3, 2)]):
+        jobs.append({"pkgdir": P, "func": "VerifC19_Map", "params": {"n": n, "threads": t, "chunk": c}, "sched": "sym", "preempt": pre,
+                     "timeout_s": 600 if tier == "quick" else 3000})
+    return jobs
+
+
+CHECKS["C19"] = {
+    "jobs": c19_jobs,
+    "functions": ["concurrent.{NewPromise,(*Promise).Fulfill,fulfill,Fail,fail,Wait,messageState}", "concurrent.{NewProcessor and its worker closure,Process,Result,Close,Stop,Wait,Working}", "concurrent.Map and its producer closure",
+                  "channels, select, sync.Mutex, sync.WaitGroup, recover: interpreted by the engine's baton scheduler"],
+    "level_text": "bounded schedule exploration by symbolic execution: every interleaving of the goroutines' synchronisation steps (channel operations, mutex operations, len(chan), go, goroutine exit) with at most p pre-emptions is explored for the stated workloads; data (values, failure flags, promise flags) are symbolic and decided by z3; deadlock = no runnable goroutine while main is blocked; a panic escaping a goroutine (double close) is a crash",
+    "technique": "bounded symbolic execution of Go SSA with a symbolic scheduler (pre-emption bounded) + SMT (z3); schedule dimension case-split by the engine",
+    "explanation": "schedule-dependent counterexamples (deadlock, crash, wrong count) are reported with the schedule found; they are not replayed natively (no gate harness was built), only data-dependent witnesses are",
+    "assumptions": ["the engine's model of Go channels, select, sync.Mutex and sync.WaitGroup is faithful; scheduling points: before and after channel operations, at mutex operations, len(chan), go statements, goroutine exit", "GOMAXPROCS = 4"],
+    "outside": "more goroutines / operations / pre-emptions than stated; unbounded schedules; data races on plain memory (no happens-before detector was built); operations that panic followed by further operations",
+}
